@@ -1,0 +1,20 @@
+// Copyright 2022 The Go Authors. All rights reserved.
+// Use of this source code is governed by a BSD-style
+// license that can be found in the LICENSE file.
+
+//go:build verif
+
+// Machine-checked contracts for package texttab (//@ lines, read by
+// /verif/gocv).  Compiled only under the "verif" tag; comment-only.
+
+package texttab
+
+// Padding is counted in characters (runes), not bytes: a centred cell gets
+// half of the free width on its left, a right-aligned cell is padded to the
+// full width, a left-aligned cell is not padded.
+//@ func (a align) lpad(s string, w int) (r string)
+//@   props C16
+//@   requires -281474976710656 <= w <= 281474976710656
+//@   ensures a == alignCenter ==> r == sprintf("%*s%s", iface((w - utf8.RuneCountInString(s)) / 2), iface(""), iface(s))
+//@   ensures a == alignRight ==> r == sprintf("%*s", iface(w), iface(s))
+//@   ensures a != alignCenter && a != alignRight ==> r == s
